@@ -34,7 +34,7 @@ ROOT_ENTRIES = [
     ("plain", {"plain/notes.txt": "n", "plain/w.task.9/data": "w"}, []),
     ("emptypkg", {"emptypkg": None}, []),
     ("lookalikes", {"x.task.05/data": "a", "x.task./data": "b", ".task.3/data": "c", "x.task.0/data": "d", "x.task.5x/data": "e"}, []),
-    ("staging", {"archive-tmp/x.task.9/data": "s"}, []),
+    ("staging", {"archive-tmp/x.task.9/data": "s", "archive.tmp/x.task.9/data": "s2", "archive.tmp/p/y.task.3/data": "s3"}, []),
     ("otherrec", {"y-2.task.7/data": "y", "y-2.task.8/deep/er/file": "z"}, [("//:y-2", 7)]),
     # packages whose names merely contain "task": multitask-2 ~ "mult" + ?task? + 2, subtask ~ "su" + ?task
     ("taskish-pkgs", {"multitask-2/train.task.4/data": "rec", "multitask-2/flaky.task.5/data": "unrec", "multitask-2/prep.task/out": "cmd",
